@@ -1419,7 +1419,8 @@ class DSAPriv(PrivKey, DSAPub):
         else:
             self.encbytes = packet
 
-        if self.s2k.usage in [0, 255]:
+        # with usage 255 the two-octet checksum is part of the encrypted data
+        if self.s2k.usage == 0:
             self.chksum = packet[:2]
             del packet[:2]
 
@@ -1460,7 +1461,8 @@ class ElGPriv(PrivKey, ElGPub):
         else:
             self.encbytes = packet
 
-        if self.s2k.usage in [0, 255]:
+        # with usage 255 the two-octet checksum is part of the encrypted data
+        if self.s2k.usage == 0:
             self.chksum = packet[:2]
             del packet[:2]
 
